@@ -107,6 +107,29 @@ func runC07(line string) string {
 				outs = append(outs, "TIMEOUT")
 				continue
 			}
+			// "backend exited" is the answer while a lost connection has not yet removed itself from the table (a
+			// matter of scheduling, C07_error_has_cause's second case): when the key's owner is up, give the connection's
+			// goroutine more time and ask again - a proxy that never reconnects keeps answering it
+			for try := 0; try < 5 && r.t == '-' && strings.Contains(string(r.s), "backend exited"); try++ {
+				cl.mu.Lock()
+				ownerUp := false
+				if len(v.a) >= 2 {
+					ownerUp = cl.nodes[cl.owner[simSlot(v.a[1].s)]].up
+				}
+				cl.mu.Unlock()
+				if !ownerUp {
+					break
+				}
+				settle(60 * time.Millisecond)
+				sc.send(v.bytes(), nil)
+				if r, err = sc.recv(5 * time.Second); err != nil {
+					break
+				}
+			}
+			if err != nil {
+				outs = append(outs, "TIMEOUT")
+				continue
+			}
 			cl.mu.Lock()
 			node, conn, red := -1, 0, "-"
 			for i, nd := range cl.nodes {
